@@ -301,16 +301,21 @@ func (b *Bucket) DeleteBucket(key []byte) (err error) {
 		return errors.ErrIncompatibleValue
 	}
 
-	// Recursively delete all child buckets.
+	// Recursively delete all child buckets. Collect their names first since
+	// deleting while iterating may skip entries of already materialized nodes.
 	child := b.Bucket(newKey)
+	var nested [][]byte
 	err = child.ForEachBucket(func(k []byte) error {
-		if err := child.DeleteBucket(k); err != nil {
-			return fmt.Errorf("delete bucket: %s", err)
-		}
+		nested = append(nested, cloneBytes(k))
 		return nil
 	})
 	if err != nil {
 		return err
+	}
+	for _, k := range nested {
+		if err := child.DeleteBucket(k); err != nil {
+			return fmt.Errorf("delete bucket: %s", err)
+		}
 	}
 
 	// Remove cached copy.
